@@ -942,20 +942,7 @@ theorem IsNextChange.shift {env : Env} {t u : Int} {r : Option Int} (h : IsNextC
 
 /-! ## `state` and `next_change` over an abstract day level -/
 
-/-- `OpeningHours::state` over an abstract `Env` (`state ctx e t = stateG (envOf ctx e) t` by `rfl`) -/
-def stateG (env : Env) (t : Instant) : M Kind :=
-  if t ≥ instEnd then .ok .closed
-  else match firstIntervalG env t (t + nsPerMin) with
-    | .error p => .error p
-    | .ok none => .ok .closed
-    | .ok (some iv) => .ok iv.kind
-
-/-- `OpeningHours::next_change` over an abstract `Env` -/
-def nextChangeG (env : Env) (t : Instant) : M (Option Instant) :=
-  match firstIntervalG env t instEnd with
-  | .error p => .error p
-  | .ok none => .ok none
-  | .ok (some iv) => if iv.stop ≥ instEnd then .ok none else .ok (some iv.stop)
+-- `stateG` / `nextChangeG` are defined at the end of `OH/Model/Iter.lean` (used by `OH/Model/Tz.lean` too)
 
 theorem state_eq_stateG (ctx : Ctx) (e : Expr) (t : Int) : state ctx e t = stateG (envOf ctx e) t := rfl
 theorem nextChange_eq_nextChangeG (ctx : Ctx) (e : Expr) (t : Int) :
